@@ -63,6 +63,39 @@ def dense(mp):
     return res[:, :, 0] * c
 
 
+def operands_untouched(step, ins, refs, verbose):
+    """after the call every operand must still represent the same object with the same labels (Mps.add / distance may
+    fold the prefactor into the tensors: coeff * tensors is what must be unchanged)"""
+    bad = 0
+    if step["op"] == "move":
+        return 0
+    for i, (x, d) in enumerate(zip(ins, step["in"])):
+        meta_now = ([np.asarray(q).reshape(len(q), -1).tolist() for q in x.qn], int(x.qnidx), [int(v) for v in np.asarray(x.qntot).reshape(-1)], bool(x.to_right))
+        meta_was = (d["qn"], d["qnidx"], d["qntot"], d["to_right"])
+        if meta_now != meta_was:
+            bad = 1
+            if verbose:
+                print("operand %d: labels changed by the call: qntot %s -> %s, qnidx %s -> %s" % (i, meta_was[2], meta_now[2], meta_was[1], meta_now[1]))
+        e = float(np.linalg.norm(dense(x) - refs[i]) / max(1.0, np.linalg.norm(refs[i])))
+        if not e <= 1e-9:
+            bad = 1
+            if verbose:
+                print("operand %d: represented object changed by the call, relative error %.3e" % (i, e))
+        try:
+            y = x.copy()
+            y.ensure_left_canonical()
+            e = float(np.linalg.norm(dense(y) - refs[i]) / max(1.0, np.linalg.norm(refs[i])))
+            if not e <= 1e-9:
+                bad = 1
+                if verbose:
+                    print("operand %d after the call + ensure_left_canonical(): relative error %.3e" % (i, e))
+        except Exception as ex:
+            bad = 1
+            if verbose:
+                print("operand %d after the call: ensure_left_canonical() raised %r" % (i, ex))
+    return bad
+
+
 def replay(step, verbose=True):
     model = build_model(step)
     ins = [build(model, d) for d in step["in"]]
@@ -87,7 +120,7 @@ def replay(step, verbose=True):
         exp = float(np.linalg.norm(refs[0] - refs[1]))
         if verbose:
             print("distance", got, "expected", exp)
-        return 0 if abs(got - exp) <= 1e-7 * max(1.0, exp) else 1
+        return 1 if (operands_untouched(step, ins, refs, verbose) or not abs(got - exp) <= 1e-7 * max(1.0, exp)) else 0
     elif op in ("dot", "opdot", "dmdot"):
         got = ins[0].dot(ins[1])
         c0 = getattr(ins[0], "coeff", 1) if step["in"][0]["kind"] != "mpo" else 1
@@ -96,11 +129,11 @@ def replay(step, verbose=True):
         ok = abs(got - exp) <= 1e-9 * max(1.0, abs(exp))
         if verbose:
             print("dot", got, "expected", exp)
-        return 0 if ok else 1
+        return 1 if (operands_untouched(step, ins, refs, verbose) or not ok) else 0
     else:
         print("unknown op", op)
         return 0
-    bad = 0
+    bad = operands_untouched(step, ins, refs, verbose)
     scale_ = max(1.0, np.linalg.norm(ref))
     for how in ("", "L", "R"):
         try:
